@@ -1,0 +1,14 @@
+//go:build verif
+
+package atomic
+
+// VerifHook, when set, is called before every atomic step of Value.
+// It exists only under the verif build tag and is used by the
+// deterministic simulator in /verif to own the interleaving of atomic steps.
+var VerifHook func(op string)
+
+func verifYield(op string) {
+	if h := VerifHook; h != nil {
+		h(op)
+	}
+}
